@@ -16,6 +16,10 @@ Small == [session : Sessions, w : BOOLEAN, stream : Streams, function : Function
 Big == [session : {0, 65535}, w : {TRUE}, stream : {1, 127}, function : {3}, ptype : {0}, stype : {0},
         system : {<<1, 2, 3, 4>>}, blen : BigLens]
 
+(* PType: only 0 (SECS-II) is assigned, but the field is a byte and is carried unchanged                   *)
+PT == [session : {0, 65535}, w : BOOLEAN, stream : {0, 127}, function : {0, 255}, ptype : {1, 127, 128, 255}, stype : {0, 1, 9},
+       system : {<<0, 0, 0, 1>>, <<255, 255, 255, 255>>}, blen : {0, 2}]
+
 Mk(v) == [session |-> v.session, w |-> v.w, stream |-> v.stream, function |-> v.function, ptype |-> v.ptype,
           stype |-> v.stype, system |-> v.system, body |-> Pattern(v.blen)]
 
@@ -25,7 +29,7 @@ RoundTrip(v) == LET f == Mk(v) b == Encode(f) IN
                   /\ FrameLen(b) = Len(b)
                   /\ Complete(b) /\ ~Complete(SubSeq(b, 1, Len(b) - 1))
 
-ASSUME \A v \in Small \cup Big : RoundTrip(v)
-ASSUME \A v \in Small \cup Big :
+ASSUME \A v \in Small \cup Big \cup PT : RoundTrip(v)
+ASSUME \A v \in Small \cup Big \cup PT :
          PrintT(<<"VEC", ToJson([f |-> v, head |-> SubSeq(Encode(Mk(v)), 1, 14)])>>)
 =============================================================================
